@@ -185,6 +185,8 @@ def features(case, variant):
     feats = []
     if idx["k"] == "mask":
         feats.append("mask-" + idx["f"] + ("-nd" if len(case["shape"]) > 1 else ""))
+        if idx["f"] == "d" and any(s == 1 and 0 in c for s, c in zip(case["shape"], case["chunks"])):
+            feats.append("mask+zero-chunk-on-unit-axis")
         if idx["f"] == "d" and [list(c) for c in idx["ch"]] != [list(c) for c in case["chunks"]]:
             feats.append("mask-chunks-differ")
     else:
@@ -209,6 +211,8 @@ def features(case, variant):
             feats.append("dup")
         if ("l" in kinds or "b" in kinds) and variant[0] == "da":
             feats.append("dask-indexer")
+            if any(c["k"] == "l" and any(not -n <= i < n for i in c["v"]) for c, n in zip(comps, case["shape"])):
+                feats.append("dask-int-indexer-out-of-bounds")
             if "b" in kinds and v["sh"] and sel is not None and list(v["sh"]) != sel:
                 feats.append("dask-bool-indexer+broadcast-value")
         if len(comps) < len(case["shape"]):
@@ -223,6 +227,8 @@ def features(case, variant):
 
 ROOTS = [   # (feature, clauses it can show up as), most specific first
     ("mask-n-nd", ("UnexpectedRaise",)),
+    ("mask+zero-chunk-on-unit-axis", ("Shape", "Content", "BlockShape", "LazyShape", "Reassemble", "UnexpectedRaise")),
+    ("dask-int-indexer-out-of-bounds", ("ErrorExpected",)),
     ("mask-chunks-differ", ("ChunksKept",)),
     ("empty-selection+array-value", ("UnexpectedRaise",)),
     ("int+lead1-value", ("UnexpectedRaise", "Content")),
@@ -572,7 +578,8 @@ def selftest(ctx):
         ok &= bool(found)
     pairs = record_sequences(ctx, 40)
     good = [r for r, _g in pairs if not r["obs"]["raised"] and r["obs"]["cells"] != r["cur"]]
-    rej = [f for f in validate(ctx, [(r, dict(g)) for r, g in pairs if r in good], report=False) if not is_known(f[0], f[1])]
+    rej = [f for f in validate(ctx, [(r, dict(g)) for r, g in pairs if r in good], report=False)
+           if classify(f[0], f[1], (f[0]["indexer"], f[0]["ell"])) not in ctx.known]
     good = [r for r in good if not judge(r, {"err": False, "cells": r["obs"]["cells"]}, r["obs"], True)]
     print("selftest C21 trace: %d recorded assignments, %d rejected unmodified outside the known findings  %s"
           % (len(good), len(rej), "ok" if not rej else "FAIL"))
